@@ -181,11 +181,13 @@ func c13(c *Ctx) {
 	}
 	wg.Wait()
 	var notes []string
-	defer func() { c.Extra["notes"] = notes }()
+	witnesses := map[string]string{} // witness kind -> outcome (reproduced / not-reproduced / setup-failed: ... / no-report)
+	defer func() { c.Extra["notes"] = notes; c.Extra["finding_witnesses"] = witnesses }()
 	for _, b := range results {
 		if len(b.jobs) == 1 && strings.HasPrefix(b.jobs[0], "scn noread") && len(b.r.Outs) == 0 {
 			notes = append(notes, "NOTE witness noread: no report from the child ("+Trunc(b.r.Crash, 200)+")")
 			c.Count("witness:noread:no-report")
+			witnesses["noread"] = "no-report"
 		}
 		if b.d.SlowCB > 0 {
 			c.Count(fmt.Sprintf("slow-callbacks:%dms", b.d.SlowCB))
@@ -215,6 +217,7 @@ func c13(c *Ctx) {
 					n = n[:i]
 				}
 				c.Count("witness:" + f[1] + ":" + n)
+				witnesses[f[1]] = o.Note
 				if n != "reproduced" {
 					notes = append(notes, "NOTE witness "+f[1]+" ("+o.Line+"): "+o.Note)
 				}
